@@ -1,36 +1,52 @@
 from common import Rng
 
 CONFIG = dict(
-    level_text="Kernel-checked Lean theorems over ALL interleavings (any number of shards, writer sessions and subscribers; "
-               "every schedule of the atomic steps of table_manager.rs subject only to mutex exclusion) of a transition-system "
-               "model of TableManager's subscription machinery: per-shard snapshot invariant, exact reconstruction of the "
-               "pre- and post-policy Adj-RIB-In by snapshot + live events once writers finish, last event per (peer, prefix, "
-               "path-id) = current state, PeerDown forwarded only after PeerUp, and the master theorem that the C18 reference "
-               "checker accepts every model schedule of every case without consumer tasks (BMP connection, MRT dump, watch stream) - the "
-               "purge class (GR-retaining session end, drop_stale_families, drop_families, mark_llgr_stale, "
-               "drop_llgr_stale_families) included since the purges withdraw what they remove (S28b repaired).  The model is tied to the code "
+    level_text="Kernel-checked Lean theorems over ALL interleavings (any number of shards, writer sessions, channel subscribers, "
+               "BMP connections, MRT dumps and watch streams; every schedule of the atomic steps of table_manager.rs subject only "
+               "to mutex exclusion) of a transition-system model of TableManager's subscription machinery and of the consumer "
+               "tasks as transition systems over the events they receive (BmpClient::serve: drain to EndOfSnapshot / flush / "
+               "forward with peer-up tracking; gRPC watch_event; MrtDumper): per-shard snapshot invariant, exact reconstruction "
+               "of the pre- and post-policy Adj-RIB-In by snapshot + live events once writers finish, last event per (peer, "
+               "prefix, path-id) = current state, PeerDown written out only after PeerUp for every consumer and every input "
+               "stream, the consumer invariants (a peer in session is announced on every consumer connection that has read "
+               "the peer table; the station agrees with the channel view on every key of an announced peer unless the key is "
+               "on its way out) and the master theorem C18_full_holds: the C18 reference checker accepts every model schedule "
+               "of EVERY case, consumer tasks included.  The model is tied to the code "
                "by running the REAL TableManager, the REAL Global peer table, the REAL PeerSession::finish_session teardown and "
                "the REAL BmpClient::serve (on a loopback TCP connection whose bytes are decoded), the REAL MrtDumper::serve (BGP4MP records read back from its file) and the REAL gRPC watch_event handler (response stream polled) under a deterministic scheduler "
                "that releases one OS thread at a time between the cfg-guarded scheduling points in table_manager.rs, on the same "
                "schedules as the model, diffing every received event history, every BMP message written, return values and the "
                "final iter_reach/iter_reach_post; the reference checker is the oracle on the real observations.",
-    level_note="Theorem-backed: channel subscribers (TableManager::subscribe) under insert/remove/soft-reset-in (any thread)/"
-               "policy change/session up/non-retaining down/GR-retaining down/the four bulk purges/subscribe/unsubscribe; a key the table "
+    level_note="Theorem-backed: every clause of the checker - channel subscribers, BMP connections, MRT dumps, watch streams - under "
+               "insert/remove/soft-reset-in (any thread)/policy change/session up/non-retaining down/GR-retaining down/the four "
+               "bulk purges/subscribe/unsubscribe; a key the table "
                "holds as a GR-retained (stale) route of an ended session is not judged (the observation carries a per-key stale flag; "
-               "the subscriber was told PeerDown, retention is C10's subject).  Hypothesis-backed (model = implementation on the "
-               "generated stream + oracle on the real bytes, no theorem): the three consumer clauses (what BmpClient::serve writes, what the gRPC WatchEvent stream carries, the last BGP4MP "
-               "record of an MRT updates dump = RIB).  Trusted: Lean kernel; axioms "
+               "the subscriber was told PeerDown, retention is C10's subject); the route clauses of a BMP connection / watch stream "
+               "are judged only when every session announces routes between its up and its down, the MRT clause only for peers "
+               "that never end a session (both restrictions are in the checker, from the property's reading in DESIGN 4.0).  "
+               "Hypothesis-backed (model = implementation on the generated stream + oracle on the real bytes): that the consumer "
+               "state machines of the model (consStep/consRun, drainSnapshot, the flush) are what bmp.rs / grpc.rs / mrt.rs do.  "
+               "Trusted: Lean kernel; axioms "
                "propext/Classical.choice/Quot.sound; hand-written model; harness glue (session establishment = session_addrs store "
                "then peer_up, transcribed from apply_outputs/on_established because on_established needs a live TCP stream; fresh "
                "Source + prefix counter per session; import_policy.store as the common end of every policy-assignment path; BMP "
                "decoding of the loopback bytes with the repo's own BGP parser; Loc-RIB/Adj-RIB-Out/EOR events dropped; event order "
                "across different keys projected away).  Modelled, not verified: memory ordering below Mutex/ArcSwap operations; "
                "interleavings inside a critical section between the two notify calls and the table mutation; the load-to-send window "
-               "inside peer_up/peer_down; the window between EndOfSnapshot and serve's read of the peer table; the API path of a watch table event carries no next hop (the observed value is completed from the MED); an MRT updates dump has no "
-               "record for a session end, so it is judged only for peers that never end a session.",
+               "inside peer_up/peer_down; the API path of a watch table event carries no next hop (the observed value is completed from the MED); an MRT updates dump has no "
+               "record for a session end, so it is judged only for peers that never end a session.  (The window between "
+               "EndOfSnapshot and serve's read of the peer table is two atomic steps in the model and covered by the theorems; "
+               "the harness has no scheduling point inside it.)",
     lean_modules=["Rbgp.Monitor.Props"],
     theorems=[
+        "Rbgp.Monitor.Props.C18_full_holds",
         "Rbgp.Monitor.Props.check_run_ok",
+        "Rbgp.Monitor.Props.bmp_peerdown_after_peerup",
+        "Rbgp.Monitor.Props.watch_peerdown_after_peerup",
+        "Rbgp.Monitor.Props.watch_view_is_fold",
+        "Rbgp.Monitor.Props.consumer_view_or_nothing",
+        "Rbgp.Monitor.Props.reachable_cinv",
+        "Rbgp.Monitor.Props.consumer_refines_channel",
         "Rbgp.Monitor.Props.reachable_inv",
         "Rbgp.Monitor.Props.snapshot_invariant",
         "Rbgp.Monitor.Props.reconstruct_exact",
@@ -73,9 +89,8 @@ CONFIG = dict(
                            "sub-critical-section interleavings of channel sends (events of other shards / other peers landing between "
                            "the pre- and post-policy notification of one insert): they commute in the fold",
                            "the window between subscribers.load() and the sends inside peer_up/peer_down (one atomic step in the model)",
-                           "the window between EndOfSnapshot and serve's read of the global peer table (one atomic step)",
                            "session establishment (on_established) is reduced to session_addrs store + register_peer (with the peer's ADD-PATH families) + peer_up",
-                           "the consumer clauses (BMP connection, MRT dump, gRPC watch stream) are hypothesis-backed (no theorem)",
+                           "that the consumer state machines of the model are what bmp.rs / grpc.rs / mrt.rs do is hypothesis-backed (correspondence run on the real tasks)",
                            "GR/LLGR retention itself (which routes stay, for how long): a retained stale key is skipped by the checker"],
     assumptions=["a peer address is owned by one session task at a time (writer thread i = peer i): sessions of the same peer are sequential",
                  "the BMP-connection clause is judged only when every session announces routes between its up and its down"],
